@@ -13,10 +13,13 @@ EXTENDS Integers, Sequences, FiniteSets, TermAlgebra
 Flags == {"TWOSIDED", "MULTIPART", "MULTISTAGE"}
 Signs == {"+", "-"}
 
-Tok(k, s) == [k |-> k, s |-> s, cs |-> <<>>, vars |-> IF k = "name" THEN <<s>> ELSE <<>>]
-PyTok(s, vars) == [k |-> "python", s |-> s, cs |-> <<>>, vars |-> vars]
-OpTok(cs) == [k |-> "op", s |-> "", cs |-> cs, vars |-> <<>>]
-One == Tok("value", "1")
+Tok(k, s) == [k |-> k, s |-> s, cs |-> <<>>, vars |-> IF k = "name" THEN <<s>> ELSE <<>>, num |-> FALSE, ival |-> -1]
+\* a literal token: num = "is a number" (str.isnumeric after removing one "."), ival = value of an integer literal or -1
+ValTok(s, num, ival) == [k |-> "value", s |-> s, cs |-> <<>>, vars |-> <<>>, num |-> num, ival |-> ival]
+PyTok(s, vars) == [k |-> "python", s |-> s, cs |-> <<>>, vars |-> vars, num |-> FALSE, ival |-> -1]
+OpTok(cs) == [k |-> "op", s |-> "", cs |-> cs, vars |-> <<>>, num |-> FALSE, ival |-> -1]
+CtxTok(k, s) == [k |-> k, s |-> s, cs |-> <<>>, vars |-> <<>>, num |-> FALSE, ival |-> -1]
+One == ValTok("1", TRUE, 1)
 Plus == OpTok(<<"+">>)
 Minus == OpTok(<<"-">>)
 
@@ -156,12 +159,11 @@ VTwo(l, r) == [err |-> "", t |-> "two", parts |-> r, lparts |-> l]
 VErr(e) == [err |-> e, t |-> "set", parts |-> <<>>, lparts |-> <<>>]
 
 Method(k) == CASE k = "name" -> "lookup" [] k = "python" -> "python" [] OTHER -> "literal"
-LeafTerms(tok) == << <<Fac(tok.s, Method(tok.k))>> >>
+LeafTerms(tok) == << <<IF tok.k = "value" THEN LitFac(tok.s, tok.num, tok.ival) ELSE Fac(tok.s, Method(tok.k))>> >>
 
-Digits == {"0", "1", "2", "3", "4", "5", "6", "7", "8", "9"}
-PosInt(s) == CASE s = "1" -> 1 [] s = "2" -> 2 [] s = "3" -> 3 [] s = "4" -> 4 [] OTHER -> 0
-\* DOC: the right operand of ** / ^ is a single positive integer literal
-PowerArg(r) == IF Len(r) = 1 /\ Len(r[1]) = 1 /\ r[1][1].m = "literal" THEN PosInt(r[1][1].e) ELSE 0
+\* DOC: the right operand of ** / ^ is a single positive integer literal (0 = invalid)
+PowerArg(r) == IF Len(r) = 1 /\ Len(r[1]) = 1 /\ r[1][1].m = "literal" /\ r[1][1].ival >= 1 THEN r[1][1].ival ELSE 0
+MaxPower == 6     \* larger exponents are outside the modelled domain
 
 DotTerms(cfg, lhsvars) ==
   LET used == Range(lhsvars)
@@ -175,7 +177,8 @@ Apply(id, l, r) ==      \* non-structural binary operators on plain term lists
     [] id = "star" -> VSet(Star(l, r))
     [] id = "nest" -> IF l = <<>> THEN VErr("empty-parent-set") ELSE VSet(Nest(l, r))      \* DOC
     [] id = "in" -> IF r = <<>> THEN VErr("empty-parent-set") ELSE VSet(Nest(r, l))        \* DOC
-    [] id = "power" -> LET n == PowerArg(r) IN IF n = 0 THEN VErr("bad-power") ELSE VSet(Power(l, n))   \* DOC
+    [] id = "power" -> LET n == PowerArg(r) IN IF n = 0 THEN VErr("bad-power")
+                       ELSE IF n > MaxPower THEN VErr("unmodelled") ELSE VSet(Power(l, n))   \* DOC
     [] OTHER -> VErr("unmodelled")
 
 RECURSIVE Eval(_, _, _)
@@ -198,14 +201,13 @@ Eval(node, cfg, lhsvars) ==
                              ELSE Apply(c.id, a[1].parts[1], a[2].parts[1])
 
 (* check_terms *)
-NumericLit(e) == e \in {"0", "1", "2", "3", "4", "5", "2.5"}      \* literals of the model alphabet that are numbers
 NonLit(t) == ExprSeq(SelectSeq(t, LAMBDA f : ~IsLiteral(f)))
 RECURSIVE CheckFrom(_, _)
 CheckFrom(ts, seen) ==
   IF ts = <<>> THEN TRUE
   ELSE LET t == Head(ts)
            single_bad == Len(t) = 1 /\ IsLiteral(t[1]) /\ t[1].e # "1"
-           string_lit == Len(t) # 1 /\ \E i \in DOMAIN t : IsLiteral(t[i]) /\ ~NumericLit(t[i].e)
+           string_lit == Len(t) # 1 /\ \E i \in DOMAIN t : IsLiteral(t[i]) /\ ~t[i].num
            h == NonLit(t)
        IN ~single_bad /\ ~string_lit /\ h \notin seen /\ CheckFrom(Tail(ts), seen \cup {h})
 CheckTerms(ts) == CheckFrom(ts, {})
